@@ -4,7 +4,7 @@
    from the case clauses of buildPrimitive on every run.  External parsers (net.ParseIP, regexp.Compile,
    bfe_util.ParseTime/ParseTimeOfDay) are the fields of [ext], universally quantified here. *)
 From Coq Require Import List ZArith Bool.
-From Bfe Require Import lib.Val lib.Bytes gen.CondProtos model.CondParse model.CondPrim proofs.CondPrimProofs run.RunC17.
+From Bfe Require Import lib.Val lib.Bytes gen.CondProtos model.CondParse model.CondPrim model.CondScan proofs.CondPrimProofs run.RunC17.
 Import ListNotations.
 Open Scope Z_scope.
 
@@ -53,6 +53,29 @@ Print Assumptions C17_build_rejects_exactly_invalid.
 Theorem C17_agree_implies_prop : forall i o, agree_C17 i o = true -> prop_C17 i o = true.
 Proof. exact agree_implies_prop_C17. Qed.
 Print Assumptions C17_agree_implies_prop.
+
+(* Central theorem.  wf_C17 i: i is a single call (op 2), a composite over calls (op 3) or an ASCII text (op 4; the
+   scanner, the Lex token filter, the callExpr/paramlist productions, the operator grammar, prototypeCheck and the
+   builders are all modelled: model/CondScan.v).  On every such input the model's answer satisfies the property. *)
+Theorem C17_prop_of_model : forall i, wf_C17 i = true -> kf_C17 i = 0 -> prop_C17 i (run_C17 i) = true.
+Proof. exact prop_C17_of_model. Qed.
+Print Assumptions C17_prop_of_model.
+
+(* The model of Build is total: on every call, composite and ASCII text it answers 0 (condition) or 1 (error);
+   in particular the modelled scanner/grammar cannot get stuck (fuel exhaustion is mapped to 1 = error). *)
+Theorem C17_model_total : forall x text,
+  build_text (build_composite x) text = 0 \/ build_text (build_composite x) text = 1.
+Proof. exact build_text_01. Qed.
+Print Assumptions C17_model_total.
+
+(* a corpus case (corpus/C17/text.case: the lone double quote that used to panic) is well-formed, and the model
+   rejects it *)
+Example C17_wf_corpus : let i := VL [VZ 4; VB [34]; VL [VL []; VL []; VL []; VL []; VL []; VL []; VL []]] in
+  wf_C17 i = true /\ run_C17 i = VZ 1.
+Proof. split; reflexivity. Qed.
+Example C17_text_accept : forall x, build_text (build_composite x)
+  (* !default_t() // c *) [33;100;101;102;97;117;108;116;95;116;40;41;32;47;47;32;99] = 0.
+Proof. intro x. vm_compute. reflexivity. Qed.
 
 (* Non-vacuity: concrete calls. *)
 Example C17_ex_accept : forall x, build_call x (* "req_path_in" *) [114;101;113;95;112;97;116;104;95;105;110]
